@@ -20,6 +20,12 @@ CLAIMS = {
         "Trusted: lark's exception contract (queried from the installed library's class hierarchy; which entry point raises what is a frozen table); Earley termination; implicit raisers outside the table (e.g. MemoryError) ignored.",
         "DESIGN.md §4 C11",
     ),
+    "C15": (
+        "typed enumeration of every iteration over List[StructField] (types-lite) and every Jinja loop over <Struct>.fields; wire relevance by call-graph reachability of codec cursor methods / layout leaf construction / TypeVisitor struct hooks / reflected field list; order classification of the iterable expression",
+        "Structural: every wire-order-relevant iteration over a struct's field list, in the Python codec, the packed layout (hence DBC and C), the type visitor (describe, C++ type names), the reflection record (run-time C++ codec) and the Encode/Decode loops of the C++ struct template, is sorted by field_id ascending. This is a per-site fact that covers every struct and every permutation of its declarations.",
+        "Trusted: sorted()/jinja sort semantics; that the C templates iterate message.signals in the layout order they receive (C06 provenance); relevance classification by the frozen sink set (cursor class of fcp.serde.encode/decode, encoding.Value, TypeVisitor.struct).",
+        "DESIGN.md §4 C15",
+    ),
 }
 
 NOT_BUILT = "check not built yet in this session (see DESIGN.md §7 build order); not claimed until it exists"
